@@ -130,6 +130,11 @@ def Elt.fixed (e : Elt) : Bool := e.opts.boolattr "fixed"
 def Elt.free (e : Elt) : Bool := e.opts.boolattr "free"
 def Elt.ignore (e : Elt) : Bool := e.opts.boolattr "ignore"
 def Elt.stretch (e : Elt) (row : ClassRow) : Bool := row.canStretch && !e.fixed
+/-- `Cpt.mirror` = `boolattr('mirror') or flipud`, `Cpt.invert` = `boolattr('invert') or fliplr` -/
+def Elt.mirror (e : Elt) : Bool := e.opts.boolattr "mirror" || e.opts.boolattr "flipud"
+def Elt.invert (e : Elt) : Bool := e.opts.boolattr "invert" || e.opts.boolattr "fliplr"
+def Elt.mirrorinputs (e : Elt) : Bool := e.opts.boolattr "mirrorinputs"
+def Elt.kind (e : Elt) : Option String := e.opts.get? "kind"
 
 def optNum (o : Opts) (k : String) (dflt : Rat) : Option Rat :=
   match o.get? k with
@@ -145,7 +150,7 @@ def requiredNodeNames (row : ClassRow) (nodes : List String) : List String :=
 
 /-- options whose presence changes pin geometry or the node set in ways that are not modelled -/
 def unsupportedOpts : List String :=
-  ["mirror", "invert", "flipud", "fliplr", "mirrorinputs", "pinnodes", "pinnames", "pinlabels", "pindefs", "anchors",
+  ["pinnodes", "pinnames", "pinlabels", "pindefs", "anchors",
    "implicit", "ground", "sground", "rground", "cground", "nground", "pground", "0V", "tlground", "tground",
    "eground", "eground2", "vcc", "vdd", "vee", "vss", "input", "output", "bidir", "pad", "def", "nodes", "aspect"]
 
